@@ -51,8 +51,9 @@ func (f *Mapcar) Call(s *slip.Scope, args slip.List, depth int) (result slip.Obj
 	caller := ResolveToCaller(s, fn, d2)
 
 	pos++
+	// nil is the empty list.
 	list, ok := args[pos].(slip.List)
-	if !ok {
+	if !ok && args[pos] != nil {
 		slip.TypePanic(s, depth, "lists", args[pos], "list")
 	}
 	var rlist slip.List
@@ -60,7 +61,7 @@ func (f *Mapcar) Call(s *slip.Scope, args slip.List, depth int) (result slip.Obj
 		min := len(list)
 		var l2 slip.List
 		for i := 1; i < len(args); i++ {
-			if l2, ok = args[i].(slip.List); !ok {
+			if l2, ok = args[i].(slip.List); !ok && args[i] != nil {
 				slip.TypePanic(s, depth, "lists", args[i], "list")
 			}
 			if len(l2) < min {
